@@ -335,6 +335,39 @@ int main(void) {
         }
       } else if (!strcmp(op, "adv") && ops_ntok == 2) {
         sdk_advance_us((uint64_t)strtoull(ops_tok[1], 0, 10) * 1000ull);
+      } else if (!strcmp(op, "mvpos") && ops_ntok >= 10) {
+        /* C09 probe: idx full_ms up pos tilt tilttype tilttime_ms time_us dt_us...  -> the real
+           supla_esp_gpio_rs_move_position, the carried time handed from call to call */
+        int i = atoi(ops_tok[1]);
+        if (i < 0 || i >= RS_MAX_COUNT || !supla_rs_cfg[i].up) sdk_out("BADOP");
+        else {
+          supla_roller_shutter_cfg_t *r = &supla_rs_cfg[i];
+          unsigned full_ms = strtoul(ops_tok[2], 0, 10); int up = atoi(ops_tok[3]);
+          *r->position = atoi(ops_tok[4]); *r->tilt = atoi(ops_tok[5]);
+          *r->tilt_type = atoi(ops_tok[6]); *r->tilt_change_time = strtoul(ops_tok[7], 0, 10);
+          unsigned tm = strtoul(ops_tok[8], 0, 10);
+          r->rs_time_margin = 110;
+          sdk_quiet_gpio = 1;
+          for (int k = 9; k < ops_ntok; k++) {
+            tm += strtoul(ops_tok[k], 0, 10);
+            supla_esp_gpio_rs_move_position(r, full_ms, &tm, up, false);
+            sdk_out("MV %d %d %u", *r->position, *r->tilt, tm);
+          }
+          sdk_quiet_gpio = 0;
+          snapshot(0);
+        }
+      } else if (!strcmp(op, "rsmanual") && ops_ntok == 2) { /* take the 10 ms accounting timer of shutter i into our hands */
+        int i = atoi(ops_tok[1]);
+        if (i >= 0 && i < RS_MAX_COUNT) os_timer_disarm(&supla_rs_cfg[i].timer);
+      } else if (!strcmp(op, "rstick") && ops_ntok == 3) { /* advance dt us (other timers run), then one accounting callback */
+        int i = atoi(ops_tok[1]);
+        sdk_advance_us((uint64_t)strtoull(ops_tok[2], 0, 10));
+        if (i >= 0 && i < RS_MAX_COUNT && supla_rs_cfg[i].up) {
+          supla_esp_gpio_rs_timer_cb(&supla_rs_cfg[i]);
+          sdk_out("RSTICK %d pos=%d tilt=%d up=%d down=%d t=%llu", i, *supla_rs_cfg[i].position, *supla_rs_cfg[i].tilt,
+                  __supla_esp_gpio_relay_is_hi(supla_rs_cfg[i].up), __supla_esp_gpio_relay_is_hi(supla_rs_cfg[i].down),
+                  (unsigned long long)sdk_now_us);
+        }
       } else if (!strcmp(op, "advus") && ops_ntok == 2) {
         sdk_advance_us((uint64_t)strtoull(ops_tok[1], 0, 10));
       } else if (!strcmp(op, "input") && ops_ntok == 3) {
